@@ -236,10 +236,15 @@ func ruleLog1(c *Ctx, r *Reporter) {
 				if mode == "guarded" {
 					okGuard := false
 					allInstrs(fn, func(x ssa.Instruction) {
-						if iff, ok := x.(*ssa.If); ok && lenTestOn(iff.Cond, call, field) {
-							t := iff.Block().Succs[0]
-							if t == ap.Block() || t.Dominates(ap.Block()) {
-								okGuard = true
+						if iff, ok := x.(*ssa.If); ok {
+							if isTest, onTrue := lenTestEdge(iff.Cond, call, field); isTest {
+								t := iff.Block().Succs[0]
+								if !onTrue {
+									t = iff.Block().Succs[1]
+								}
+								if t == ap.Block() || t.Dominates(ap.Block()) {
+									okGuard = true
+								}
 							}
 						}
 					})
@@ -298,8 +303,43 @@ func ruleLog1(c *Ctx, r *Reporter) {
 	}
 }
 
-// lenTestOn: cond is `len(res.<field>) > 0` (or != 0 / >= 1) on the result of call.
+// lenTestOn: cond tests `len(res.<field>)` against emptiness (any form) on the result of call.
 func lenTestOn(cond ssa.Value, call *ssa.Call, field string) bool {
+	ok, _ := lenTestEdge(cond, call, field)
+	return ok
+}
+
+// lenTestEdge additionally reports which edge (true = Succs[0]) is taken for a NON-empty list.
+func lenTestEdge(cond ssa.Value, call *ssa.Call, field string) (bool, bool) {
+	bo, ok := cond.(*ssa.BinOp)
+	if !ok {
+		return false, false
+	}
+	lc, ok := bo.X.(*ssa.Call)
+	if !ok {
+		return false, false
+	}
+	b, ok := lc.Call.Value.(*ssa.Builtin)
+	if !ok || b.Name() != "len" {
+		return false, false
+	}
+	if okk, _ := resultFieldSource(lc.Call.Args[0], call, field); !okk {
+		return false, false
+	}
+	k, isConst := constInt(bo.Y)
+	if !isConst {
+		return false, false
+	}
+	switch {
+	case (bo.Op == token.GTR && k == 0) || (bo.Op == token.NEQ && k == 0) || (bo.Op == token.GEQ && k == 1):
+		return true, true
+	case (bo.Op == token.EQL && k == 0) || (bo.Op == token.LEQ && k == 0) || (bo.Op == token.LSS && k == 1):
+		return true, false
+	}
+	return false, false
+}
+
+func lenTestOnOld(cond ssa.Value, call *ssa.Call, field string) bool {
 	bo, ok := cond.(*ssa.BinOp)
 	if !ok {
 		return false
